@@ -17,6 +17,8 @@ from lib import Err, err_of
 
 import lxml.etree as ET
 
+import os
+RUN = os.getpid()      # case-file tags are per process: concurrent runs of the same check do not collide
 IMP = "From V Require Import Model.SerExs Model.SerNs."
 XSI = "http://www.w3.org/2001/XMLSchema-instance"
 XMI = "http://www.omg.org/XMI"
@@ -475,7 +477,7 @@ def run(chk: lib.Check):
             rcases.append(((v, p), o))
             if isinstance(o, str) and o.count(".") != v.count("."):
                 chk.violation(f"round_version:{v!r}:{p}", f"_round_version({v!r}, {p}) = {o!r} changes the number of parts", {"v": v, "prec": p})
-    chk.correspond(IMP, "w_round_version", rcases, tag="C02_round")
+    chk.correspond(IMP, "w_round_version", rcases, tag=f"C02_round_{RUN}")
 
     # ---------------- edit histories
     small, big = model_specs(data, chk.tier)
@@ -559,8 +561,8 @@ def run(chk: lib.Check):
                           {"model": spec["path"].name, "seed": seed, "ops": [list(e) if isinstance(e, tuple) else e for e in out.ops],
                            "problems": out.problems})
     chk.coverage["histories"] = stats
-    chk.correspond(IMP, "w_update_ns", ns_cases, tag="C02_ns", shard=6)
-    chk.correspond(IMP, "w_file", file_cases, tag="C02_file", shard=1)
+    chk.correspond(IMP, "w_update_ns", ns_cases, tag=f"C02_ns_{RUN}", shard=6)
+    chk.correspond(IMP, "w_file", file_cases, tag=f"C02_file_{RUN}", shard=1)
     chk.samples.append({"ops_of_one_history": stats["ops"]})
     chk.coverage["rule"] = (
         "seeded edit histories through the public API (create function/component/constraint/class+property/property value/"
